@@ -195,6 +195,11 @@ class Lex(Family):
             yield dict(kind='random', text=gen_random(rng))
         for _ in range(400 if quick else 7000):
             yield dict(kind='shaped', text=gen_shaped(rng))
+        # size boundaries: very long option texts and body lines, many sections
+        for n in (255, 1024, 4096, 8193):
+            yield dict(kind='big', text='#diffx: version=1.0, x=' + 'v' * n + '\n#.preamble: length=%d\n' % (n + 1) + 'p' * n + '\n#.change:\n')
+            yield dict(kind='big', text='#diffx:\n#.change:\n#..file:\n#...diff: length=1\n' + '-' + 'a' * n + '\n+' + 'b' * n + '\n\n#diffx: not a header\n')
+        yield dict(kind='big', text='#diffx: version=1.0\n' + ''.join('#.change:\n#..file:\n#...meta: length=3\n{}\n' for _ in range(150)))
         want = 250 if quick else 4000
         got = 0
         tries = 0
